@@ -27,9 +27,16 @@ if [ "$TIER" = thorough ] && [ -x ./witness.sh ]; then
   fi
   ./bin/bleveverif -prop "$PROP" -tier thorough -repo "$REPO" -verif "$PWD"; C=$?
   [ $C -ne 0 ] && exit $C
+  # silence on the stored behaviour-preserving refactorings of this property's code
+  S=0
+  if [ -x ./silence.sh ] && [ -d refactors ]; then
+    ./silence.sh "$PROP" > "evidence/$PROP.silence.log" 2>&1; S=$?
+    tail -1 "evidence/$PROP.silence.log"
+  fi
   if [ $W -ne 0 ]; then echo "UNDECIDED property=$PROP the checker missed a stored witness (see evidence/$PROP.witness.log)"; exit 2; fi
   if [ $R -ne 0 ]; then echo "UNDECIDED property=$PROP the verdict changes when local identifiers are renamed (see evidence/$PROP.rename.log): a rule depends on names"; exit 2; fi
-  echo "thorough: witnesses fired, verdict independent of local identifier names"
+  if [ $S -ne 0 ]; then echo "UNDECIDED property=$PROP the verdict changes under a stored behaviour-preserving refactoring (see evidence/$PROP.silence.log)"; exit 2; fi
+  echo "thorough: witnesses fired, verdict independent of local identifier names, silent on the stored refactorings"
   exit 0
 fi
 exec ./bin/bleveverif -prop "$PROP" -tier "$TIER" -repo "$REPO" -verif "$PWD"
